@@ -16,6 +16,12 @@ import GoProbeModel.Spec.C24
 import GoProbeModel.Spec.C31
 import GoProbeModel.Spec.C05
 import GoProbeModel.Spec.C30
+import GoProbeModel.Spec.C18
+import GoProbeModel.Spec.C08
+import GoProbeModel.Spec.C28
+import GoProbeModel.Spec.C20
+import GoProbeModel.Spec.C27
+import GoProbeModel.Spec.C21
 
 /-!
 `gpjudge`: executable specs. Reads lines `<Cxx> <case fields…> => <implementation output>` and
@@ -39,5 +45,11 @@ def main : IO Unit := DriverLoop.runJudge [
   ("C24", C24.judge),
   ("C31", C31.judge),
   ("C05", C05.judge),
-  ("C30", C30.judge)
+  ("C30", C30.judge),
+  ("C18", C18.judge),
+  ("C08", C08.judge),
+  ("C28", C28.judge),
+  ("C20", C20.judge),
+  ("C27", C27.judge),
+  ("C21", C21.judge)
 ]
